@@ -41,6 +41,19 @@ def handle (args : List String) (impl : String) : R Ans :=
           else "ok"
         | _ => "FAIL:malformed-answer"
     pure { model, verdict }
+  | ["deep", k, base, nobs, st, sm, label] => do
+    -- one read of `nobs + K - 1` equal bases: a single k-mer observed `nobs` times (more than any internal batch), too many for the
+    -- executable model; the crate is judged against the statement in closed form: one row, both flanks = the base, count saturated at
+    -- the extracted 2^16-1 (or the label set), accepted iff the (saturated) count reaches the threshold
+    let K ← nat k; let b ← nat base; let nobs ← nat nobs; let st ← bool st; let sm ← parseSumm sm; let label ← nat label
+    let c := if st ∨ b ≤ 3 - b then b else 3 - b
+    let key := String.ofList (List.replicate K (Char.ofNat (c + '0'.toNat)))
+    let exts := (if nobs ≥ 2 then (1 <<< c) ||| (16 <<< c) else 0)
+    let (valid, payload) := match sm with
+      | .count n => (decide (min nobs Gen.countSaturation ≥ n), toString (min nobs Gen.countSaturation))
+      | .set n => (decide (nobs ≥ n), toString label)
+    let expect := if valid ∧ nobs ≥ 1 then s!"{key}:{toHex exts 2}:{payload}" else "-"
+    pure { model := expect, verdict := if impl == expect then "ok" else s!"FAIL:deep-k-mer-row-differs-from-the-statement(expected {expect})" }
   | _ => throw "bad-request"
 
 end Drv.C05
